@@ -303,9 +303,10 @@ def render(module, layout=None, force_doc_indent=None, eof_newline=True, feature
     if md is not None:
         # the module doccomment must be the first non-comment element
         out.append(_gap(lay, ""))
-        head = [" @module", "@module", " @module"][lay.pick(3)]
+        # the grammar allows any run of blanks/tabs (or none) before '@module' and between it and the name
+        head = [" @module", "@module", " @module", "  @module", "\t@module", " \t @module"][lay.pick(6)]
         if md["name"] is not None:
-            head += " " + md["name"]
+            head += [" ", " ", "  ", "\t"][lay.pick(4)] + md["name"]
         out.append(render_doc({"lines": md["lines"], "form": "leader", "indent": md.get("indent")}, lay, head=head))
     render_items(module["items"], lay, 0, out)
     out.append(_gap(lay, ""))
